@@ -281,7 +281,7 @@ pub fn run_tape_batches(p: &dyn Property, ctx: &mut Ctx, label: &str, total_case
         let seed = hash64(&(ctx.seed, ctx.shard as u64, label, batch));
         let mut seed_bytes = [0u8; 32];
         for i in 0..4 { seed_bytes[i * 8..(i + 1) * 8].copy_from_slice(&hash64(&(seed, i as u64)).to_le_bytes()); }
-        let config = Config { cases: n as u32, failure_persistence: None, max_shrink_iters: 3000, rng_algorithm: RngAlgorithm::ChaCha,
+        let config = Config { cases: n as u32, failure_persistence: None, max_shrink_iters: 600, rng_algorithm: RngAlgorithm::ChaCha,
                               rng_seed: RngSeed::Fixed(seed), max_global_rejects: 1_000_000, max_local_rejects: 1_000_000, ..Config::default() };
         let mut runner = TestRunner::new_with_rng(config, TestRng::from_seed(RngAlgorithm::ChaCha, &seed_bytes));
         let strat = proptest::collection::vec(any::<u32>(), tape_len..=tape_len);
@@ -289,6 +289,7 @@ pub fn run_tape_batches(p: &dyn Property, ctx: &mut Ctx, label: &str, total_case
         ctx.shrink_target = None;
         let cell = std::cell::RefCell::new(&mut *ctx);
         let last_fail: std::cell::RefCell<Option<(String, Value, Value)>> = std::cell::RefCell::new(None);
+        let first_fail: std::cell::RefCell<Option<(String, Value, Value)>> = std::cell::RefCell::new(None);
         let res = runner.run(&strat, |tape| {
             let mut ctx = cell.borrow_mut();
             let mut t = Tape::new(&tape);
@@ -300,7 +301,11 @@ pub fn run_tape_batches(p: &dyn Property, ctx: &mut Ctx, label: &str, total_case
             let out = p.check(&case);
             if ctx.record(&case, &out) {
                 if let Outcome::Fail { signature, detail } = &out {
-                    if ctx.shrink_target.is_none() { ctx.shrink_target = Some(signature.clone()); ctx.counting = false; }
+                    if ctx.shrink_target.is_none() {
+                        ctx.shrink_target = Some(signature.clone()); ctx.counting = false;
+                        *first_fail.borrow_mut() = Some((signature.clone(), case.clone(), detail.clone()));
+                        crate::api::set_shrinking(true);
+                    }
                     *last_fail.borrow_mut() = Some((signature.clone(), case.clone(), detail.clone()));
                     return Err(TestCaseError::fail(signature.clone()));
                 }
@@ -311,14 +316,18 @@ pub fn run_tape_batches(p: &dyn Property, ctx: &mut Ctx, label: &str, total_case
         match res {
             Ok(()) => {}
             Err(TestError::Fail(_, _)) | Err(TestError::Abort(_)) => {
+                crate::api::set_shrinking(false);
                 if let Some((sig, case, detail)) = last_fail.borrow_mut().take() {
-                    // proptest re-runs the minimal case last only sometimes; re-check the recorded one to be sure it still fails
                     ctx.shrink_target = None; ctx.counting = false;
-                    ctx.violation(&sig, &case, &detail);
+                    // re-check the shrunk case under normal conditions (full step budget); fall back to the original failing case
+                    let confirmed = matches!(p.check(&case), Outcome::Fail { signature, .. } if signature == sig);
+                    if confirmed { ctx.violation(&sig, &case, &detail); }
+                    else if let Some((s0, c0, d0)) = first_fail.borrow_mut().take() { ctx.violation(&s0, &c0, &d0); }
                     failures_here += 1;
                 }
             }
         }
+        crate::api::set_shrinking(false);
         ctx.counting = true; ctx.shrink_target = None;
         done += n; batch += 1;
         if failures_here >= 8 { ctx.add_extra("stopped_after_8_failing_batches", 1); break; }
